@@ -3201,9 +3201,15 @@ RESUME_VALIDATE_CERTS:
                 cert->authFailFlags |= PS_CERT_AUTH_FAIL_VERIFY_DEPTH_FLAG;
             }
         }
-        if (ssl->err != SSL_ALERT_NONE)
+        if (ssl->err != SSL_ALERT_NONE &&
+            ssl->err != SSL_ALERT_CERTIFICATE_EXPIRED)
         {
-            break; /* The first alert is the logical one to send */
+            /* The first alert is the logical one to send. An expiry is
+               the failure an application callback is most likely to
+               tolerate: it is reported only when nothing else is wrong
+               further up the chain, so that tolerating it never accepts
+               an unanchored or badly signed chain with it. */
+            break;
         }
         switch (cert->authStatus)
         {
